@@ -17,10 +17,14 @@
   * `c01_cache_sound`  the cache only ever holds derivations (so results handed out again on a hit are
                        derivations too — the invariant behind `c01_sound`).
 
-  NOT proved (stated, kept visible): completeness — `c01_complete_STATEMENT` below.  It is decided on
+  COMPLETENESS is proved in Props/C01C.lean for the monotone fragment {term, empty, ref, memo, any, seqOf,
+  optional}: `c01_complete_ends` (every reachable end position is returned), `c01_complete_trees` (every
+  tree, for acyclic grammars), `c01_ends_exact` / `c01_trees_exact` (iff), via the reuse invariant
+  `c01_reuse_complete` (cache reuse and curtailing sets never lose a curtailed derivation) and the cut
+  argument `c01_curtailed_covers`.  Outside that fragment (Choice, Many, SepBy, SeqTry, SeqFirstOrAll:
+  first-match / longest-path; Name / Single over Optional: known finding D9) completeness is decided on
   every run by the derivation oracle of the harness (an independent least-fixpoint table over
-  (sub-term, start, end) computed in Go and compared with the implementation's end positions and, where
-  finitely many, trees) — bounded exploration, named so in the evidence.
+  (sub-term, start, end) computed in Go) — bounded exploration, named so in the evidence.
 -/
 import ParsleyVerif.Proofs.RunSound
 import ParsleyVerif.Proofs.Spell
@@ -192,7 +196,8 @@ theorem c01_facts :
   ⟨rfl, rfl, rfl, rfl, rfl, rfl, rfl, rfl, rfl, rfl, rfl, rfl, rfl, rfl, rfl⟩
 
 /-
-  **C01 completeness — full statement, NOT proved** (kept here so that it is never quietly dropped):
+  **C01 completeness — the statement as first written; now proved for the monotone fragment in Props/C01C.lean
+  (`c01_complete_ends`, `c01_complete_trees`), still open for the non-monotone operators:**
 
     theorem c01_complete_STATEMENT (cfg) (g) (wf : WF cert cfg.env g) (monotone g)
         (h : run cfg fuel g [] pos {} = some (o, st')) (e : Nat) :
